@@ -652,7 +652,7 @@ class Engine:
                     mut_idx.append(i)
         target = t["t"]
         # --- summaries (external callees only)
-        if (t.get("resolved") or t.get("callee") or "") in self.fb.items and not FIELD_OP_RX.search(name) \
+        if self.fb.lookup(t.get("resolved") or t.get("callee") or "") is not None and not FIELD_OP_RX.search(name) \
                 and not FIELD_OPA_RX.search(name):
             res = NotImplemented
         else:
@@ -666,7 +666,7 @@ class Engine:
             self.write_place(item, frame, st, t["dest"], res, trace, site)
             return target
         # --- inlining of workspace callees
-        callee_item = self.fb.items.get(t.get("resolved") or "") or self.fb.items.get(t.get("callee") or "")
+        callee_item = self.fb.lookup(t.get("resolved") or "") or self.fb.lookup(t.get("callee") or "")
         if callee_item is not None and callee_item.path != item.path and self.should_inline(callee_item, depth):
             if target is None:
                 self.npaths += 1
